@@ -597,7 +597,8 @@ except Exception:  # pragma: no cover
 
 class RtCheck(_Sched):
     """rt_check(rt_factor, rt_start, rt_strict, sim) after the step for time t, `passed` seconds after the start:
-      * on time (passed < rt_factor * t; the boundary itself is left open)  =>  no report of any kind;
+      * on time (passed <= rt_factor * t -- including equality: on a virtual clock an instantly answering simulator finishes
+        its step exactly then)  =>  no report of any kind;
       * late beyond doubt (passed > rt_factor * (t + 1): even the next period has begun)  =>  reported;
       * a report is a RuntimeError with rt_strict and exactly one warning without it -- never the other kind;
       * nothing is written in either mode (rt_strict changes nothing else); outside real-time mode: silent.
@@ -628,7 +629,7 @@ class RtCheck(_Sched):
         a = self._M.alg
         t = z3.ToReal(a.time(self._h0["LS"][A.sim]))
         passed = now - self._start
-        return passed < self._rt * t, passed > self._rt * (t + 1)
+        return passed <= self._rt * t, passed > self._rt * (t + 1)
 
     def raise_allowed(self, A, e):
         if e.cls != "RuntimeError" or self._rt is None:
@@ -699,7 +700,7 @@ def _rtcheck_call(self, m):
         logger.remove(hid)
         w.loop.close()
     rt = m["rt_factor"]
-    on_time = (not rt) or m["passed"] < rt * m["last_step"]
+    on_time = (not rt) or m["passed"] <= rt * m["last_step"]
     late = bool(rt) and m["passed"] > rt * (m["last_step"] + 1)
     reported = raised or bool(msgs)
     ok = len(msgs) <= 1 and not (raised and msgs) and not (on_time and reported) and not (late and not reported) \
